@@ -51,27 +51,22 @@ Theorem C03_fresh :
 Proof. exact dump_fresh. Qed.
 Print Assumptions C03_fresh.
 
-(* The Z rewrite `isoformat().replace('+00:00','Z',1)`: a trailing +00:00 is written as Z,
-   anything else is left alone — provided the first occurrence of "+00:00" is the suffix. *)
+(* The Z rewrite `s[:-6] + 'Z' if s.endswith('+00:00') else s` (model iso_z, on the reversed texts):
+   a trailing +00:00 is written as Z, every other text is left alone - for EVERY text
+   (unconditional since the repair of finding F43, /repo d01048a). *)
 Theorem C03_z_suffix :
-  forall s, z_safe s = true ->
-  (ends_with_off s = true ->
-     exists p, s = p ++ utc_off /\ replace_first utc_off z_suffix s = p ++ z_suffix) /\
-  (ends_with_off s = false -> replace_first utc_off z_suffix s = s).
-Proof. intros s Hs; split; [apply z_suffix_written | apply z_untouched]; assumption. Qed.
+  forall s,
+  (ends_with_off s = true -> exists p, s = p ++ utc_off /\ iso_z s = p ++ z_suffix) /\
+  (ends_with_off s = false -> iso_z s = s).
+Proof. intros s; split; [apply z_suffix_written | apply z_untouched]. Qed.
 Print Assumptions C03_z_suffix.
 
-(* Outside that region the faithful model violates the documented encoding (finding F43):
-   an aware datetime whose UTC offset is +00:00:30. *)
-Definition f22_tok : tok := mkTok KDateTime (S "2020-01-01T00:00:00+00:00:30") [] 1577836770.
-Theorem C03_refuted_subminute_offset :
-  exists cfg t, wfv (VTok t) = false /\
-    rmap demix (dump dump_hooks_v0 cfg (VTok t)) <> ref_encode cfg (VTok t).
-Proof.
-  exists (mkCfg XCamel DtIso (S "__tag__")), f22_tok. split; [reflexivity|].
-  vm_compute. discriminate.
-Qed.
-Print Assumptions C03_refuted_subminute_offset.
+(* Regression witness of the repaired finding F43: a sub-minute offset +00:00:30 is kept. *)
+Example C03_subminute_offset_kept :
+  dump dump_hooks_v0 (mkCfg XCamel DtIso (S "__tag__"))
+       (VTok (mkTok KDateTime (S "2020-01-01T00:00:00+00:00:30") [] 1577836770))
+  = Ok (VStr (S "2020-01-01T00:00:00+00:00:30")).
+Proof. reflexivity. Qed.
 
 (* Non-vacuity: a concrete instance satisfying the hypotheses, with its encodings. *)
 Definition ex_cls := mkC 1 (S "Outer") [mkF (S "my_set") None; mkF (S "when_at") (Some (S "At"))] (Some (S "outer")).
